@@ -14,7 +14,7 @@
    are reported as [TLoopVar] (the C variable they reach is the `int` of the for header). *)
 From Coq Require Import ZArith QArith List Bool.
 From RV Require Import Base.Wire Base.Text Lang.PyAst Lang.PySem Lang.Infer Lang.InferGuard Lang.InferSpec
-  Lang.InferComp Lang.Decl.
+  Lang.InferComp Lang.Decl Lang.Reads.
 Import ListNotations.
 Open Scope Z_scope.
 
@@ -173,13 +173,37 @@ Definition exec_prog (orc : list nat) (pre : list stmt) (main : block) : res xou
   end.
 
 (* ------------------------------------------------------------------ the guard
-   [L] is the var_types table at the END of the scope (the labels the names finally have).  A store x = e met
-   while var_types is [G] is inside the guard when e is inside the expression guard both under G (what the
-   transpiler sees at that line) and under L, and both give the label L holds for x: typing is a fixed point.
-   This excludes exactly the refuted shapes: first assignment of another label, x op= e changing the label,
-   branches that disagree, a label that changes later (flow-insensitive table), a name read before the line
-   that types it.  Loops add [promo_ok]: the shared promotion table holds no other C type for a hoisted name. *)
+   [L] is the table of DECLARED labels of the scope: for every name the label of the store (or hoist) that declares it.
+   A store x = e met while var_types is [G] is inside the guard when
+     - e is inside the expression guard under G (what the transpiler sees at that line), and its value is covered:
+       either every name e reads has, in G, exactly its declared label (it is not in a narrowed state, and it is
+       not read before the line that types it), or typing e under L instead of G gives the same label (typing is a
+       fixed point);
+     - the label inferred for e is the declared label of x when this store declares x, and at most the declared
+       label (bool < int < float) when x is declared already: a narrower value goes into a wider variable.
+   A name hoisted out of an if or a loop must end its block with its declared label; loops add: the shared promotion
+   table holds no other C type for the hoisted name.  This excludes exactly the refuted shapes: a later store of a
+   wider or unrelated label, x op= e widening x, branches that disagree, a read of a name while its label is below
+   its declared one (flow-insensitive table), a name read before the line that types it, a stale promotion table. *)
 Definition is_matmult (op : binop) : bool := match op with MatMult => true | _ => false end.
+
+Definition sub_tyb (a b : ty) : bool :=
+  ty_eqb a b || match a, b with TBool, TInt | TBool, TFloat | TInt, TFloat => true | _, _ => false end.
+
+Definition same_lab (G L : tenv) (y : ident) : bool :=
+  match tlookup y G, tlookup y L with
+  | Some a, Some b => ty_eqb a b
+  | None, None => true
+  | _, _ => false
+  end.
+Definition lab_is (L : tenv) (x : ident) (t : ty) : bool :=
+  match tlookup x L with Some t0 => ty_eqb t0 t | None => false end.
+(* t may be stored into x: exactly the declared label for a declaring store, at most it otherwise *)
+Definition store_ok (L : tenv) (declared : bool) (x : ident) (t : ty) : bool :=
+  match tlookup x L with
+  | Some t0 => if declared then sub_tyb t t0 else ty_eqb t t0
+  | None => false
+  end.
 
 Section Guard.
   Variable S : Type.
@@ -190,26 +214,29 @@ Section Guard.
 
   Definition typed (G : tenv) (e : pexpr) : bool :=
     match infer_s F A C G e with Some _ => true | None => false end.
-  Definition expr_ok (L G : tenv) (e : pexpr) (t : ty) : bool :=
-    guard F A C G e && guard F A C L e && typed L e && ty_eqb (ety F A C G e) t && ty_eqb (ety F A C L e) t.
-  Definition assign_ok (L G : tenv) (x : ident) (e : pexpr) : bool :=
-    match tlookup x L with Some t => expr_ok L G e t | None => false end.
+  (* the value of e is held by the label inferred at this line *)
+  Definition expr_ok (L G : tenv) (e : pexpr) : bool :=
+    guard F A C G e && typed G e &&
+    (reads_ok (same_lab G L) e || (guard F A C L e && typed L e && ty_eqb (ety F A C G e) (ety F A C L e))).
+  Definition assign_ok (L : tenv) (c : dctx) (x : ident) (e : pexpr) : bool :=
+    expr_ok L (d_types c) e && store_ok L (tmem x (d_decl c)) x (ety F A C (d_types c) e).
 
   Definition rty (G : tenv) (r : rhs) : ty :=
     match infer_rhs_s F A C G r with Some (t, _) => t | None => TInt end.
-  Definition assignr_ok (L G : tenv) (x : ident) (r : rhs) : bool :=
-    match tlookup x L with
-    | Some t => rhs_guard F A C G r && rhs_guard F A C L r &&
-                match infer_rhs_s F A C L r with Some _ => true | None => false end &&
-                ty_eqb (rty G r) t && ty_eqb (rty L r) t
-    | None => false
-    end.
+  Definition assignr_ok (L : tenv) (c : dctx) (x : ident) (r : rhs) : bool :=
+    rhs_guard F A C (d_types c) r && rhs_guard F A C L r &&
+    match infer_rhs_s F A C L r with Some _ => true | None => false end &&
+    ty_eqb (rty (d_types c) r) (rty L r) && store_ok L (tmem x (d_decl c)) x (rty (d_types c) r).
   Definition ret_ok (L G : tenv) (e : pexpr) : bool :=
-    guard F A C G e && guard F A C L e && typed L e && scalar (ety F A C L e) && ty_eqb (ety F A C G e) (ety F A C L e).
+    expr_ok L G e && scalar (ety F A C G e).
 
-  Definition promo_ok (base child : dctx) (basenames : list ident) : bool :=
+  Definition hoist_ok (L : tenv) (basenames : list ident) (kids : list dctx) : bool :=
+    forallb (fun xt => lab_is L (fst xt) (snd xt)) (promote_collect basenames kids []).
+
+  Definition promo_ok (L : tenv) (base child : dctx) (basenames : list ident) : bool :=
     let D := match share_back (d_promo base) (d_promo child) with Some d => d | None => [] end in
-    forallb (fun x => match tlookup x D with
+    forallb (fun x => lab_is L x (tget (d_types child) x) &&
+                      match tlookup x D with
                       | Some c => cty_eqb c (cpp_type (tget (d_types child) x))
                       | None => true end)
             (new_names basenames child).
@@ -217,23 +244,30 @@ Section Guard.
   Fixpoint gd_stmt (L : tenv) (s : S) (st : bstate) (x : stmt) {struct x} : bool :=
     let G := d_types (st_ctx st) in
     match x with
-    | SAssign v e => assign_ok L G v e
+    | SAssign v e => assign_ok L (st_ctx st) v e
     | SAug v op e =>
-        negb (is_matmult op) && tmem v (d_decl (st_ctx st)) && assign_ok L G v (EBin op (EName v) e)
-    | SAssignR v r => assignr_ok L G v r
+        negb (is_matmult op) && tmem v (d_decl (st_ctx st)) && assign_ok L (st_ctx st) v (EBin op (EName v) e)
+    | SAssignR v r => assignr_ok L (st_ctx st) v r
     | STuple xs es =>
-        Nat.eqb (length xs) (length es) && forallb (fun xe => assign_ok L G (fst xe) (snd xe)) (combine xs es)
+        Nat.eqb (length xs) (length es) &&
+        forallb (fun xe => expr_ok L G (snd xe) && lab_is L (fst xe) (ety F A C G (snd xe))) (combine xs es)
     | SReturn None => true
     | SReturn (Some e) => ret_ok L G e
     | SIf brs els =>
         let base := st_ctx st in
         gd_branches L s base (d_promo base) (st_acc st) brs &&
-        match els with
-        | ONone => true
-        | OSome b =>
-            match run_branches S call C s base (d_promo base) (st_acc st) brs with
-            | None => true
-            | Some (s1, _, p1, a1) => gd_block L s1 (mk_bstate (mk_dctx (d_types base) (d_decl base) p1) [] a1) b
+        match run_branches S call C s base (d_promo base) (st_acc st) brs with
+        | None => true
+        | Some (s1, kids, p1, a1) =>
+            match els with
+            | ONone => hoist_ok L (d_decl base) kids
+            | OSome b =>
+                let st0 := mk_bstate (mk_dctx (d_types base) (d_decl base) p1) [] a1 in
+                gd_block L s1 st0 b &&
+                match run_block S call C s1 st0 b with
+                | None => true
+                | Some (_, stc) => hoist_ok L (d_decl base) (kids ++ [st_ctx stc])
+                end
             end
         end
     | SWhile body =>
@@ -242,7 +276,7 @@ Section Guard.
         gd_block L s st0 body &&
         match run_block S call C s st0 body with
         | None => true
-        | Some (_, stc) => promo_ok base (st_ctx stc) (d_decl base)
+        | Some (_, stc) => promo_ok L base (st_ctx stc) (d_decl base)
         end
     | SFor i body =>
         let base := st_ctx st in
@@ -251,7 +285,7 @@ Section Guard.
         gd_block (tset L i TInt) s st0 body &&
         match run_block S call C s st0 body with
         | None => true
-        | Some (_, stc) => promo_ok base (st_ctx stc) basenames
+        | Some (_, stc) => promo_ok L base (st_ctx stc) basenames
         end
     end
   with gd_block (L : tenv) (s : S) (st : bstate) (b : block) {struct b} : bool :=
@@ -300,10 +334,21 @@ Fixpoint items_gd (C : option ictx) (L : tenv) (ps : pstate) (its : list item) :
       | Some ps1 => items_gd C L ps1 r
       end
   end.
+(* the declared labels: for every name the FIRST label recorded for it in program order (the store - for a hoisted
+   name, the first store of the first branch - that declares it), on top of the labels [G0] visible at the start *)
+Definition decl_tab (G0 : tenv) (labels : list (ident * ty)) : tenv :=
+  fold_left (fun D xt => match tlookup (fst xt) D with Some _ => D | None => D ++ [xt] end)
+            (filter (fun xt => negb (text_eqb (fst xt) tmp_marker)) labels) G0.
+(* every declared label belongs to a name var_types finally knows (so that it has a declaration) *)
+Definition all_labelled (L G : tenv) : bool :=
+  forallb (fun xt => match tlookup (fst xt) G with Some _ => true | None => false end) L.
+
 Definition script_guard (C : option ictx) (pre : list stmt) (main : block) : bool :=
   match run_items C (script_items pre main) with
   | None => false
-  | Some ps => items_gd C (d_types (p_ctx ps)) pstate0 (script_items pre main)
+  | Some ps =>
+      let L := decl_tab [] (p_labels ps) in
+      all_labelled L (d_types (p_ctx ps)) && items_gd C L pstate0 (script_items pre main)
   end.
 
 (* ---- one function variant: the body parsed for call signature sg ---- *)
@@ -329,7 +374,10 @@ Definition fn_guard (F : ftable) (A : aliases) (C : option ictx) (cur : dctx) (p
   match run_block unit (call_st F A) C tt st0 body with
   | None => false
   | Some (_, st1) =>
-      let L := d_types (st_ctx st1) in
-      ctx_wf (fn_ctx cur params sg) && sub_env (d_types (fn_ctx cur params sg)) L &&
+      let G0 := d_types (fn_ctx cur params sg) in
+      let L := decl_tab G0 (a_labels (st_acc st1)) in
+      ctx_wf (fn_ctx cur params sg) && all_labelled L (d_types (st_ctx st1)) &&
+      (* every parameter ends the body with the label of the signature: it is declared from that final label *)
+      forallb (fun pa => ty_eqb (tget (d_types (st_ctx st1)) (fst pa)) (tget G0 (fst pa))) params &&
       gd_block unit (call_st F A) C F A L tt st0 body
   end.
